@@ -14,6 +14,15 @@
 (*                            <<index, high16, low16>> in ascending order  *)
 (*                            (a lossless projection), and for p <= 8 the  *)
 (*                            complete byte string                         *)
+(*                            with "s": the caller KEEPS the returned slice *)
+(*                            (uncopied) as snapshot s                     *)
+(*   Held    s hdr len nz [full]   the kept slice s projected again NOW,   *)
+(*                            after whatever happened since: it must still *)
+(*                            be the byte form of the moment it was taken  *)
+(*   BuildHeld d s            d = BuildHyperLogLog(kept slice s)           *)
+(*   Scribble [s] [d]         the caller overwrote bytes it owns: the slice*)
+(*                            GetBytes returned as s, or its private copy  *)
+(*                            that d was built from; no counter changes    *)
 (*   Same    c d eq           eq = (GetBytes(c) = GetBytes(d))             *)
 (*   Est     c est            Cardinality()                                *)
 (*   EstBulk p n est          Cardinality() of a counter that received n   *)
@@ -30,7 +39,7 @@ Step(e) == IsEv(l, e) /\ l' = l + 1
 
 IsHash(h) == Len(h) = 4 /\ \A k \in 1..4 : h[k] \in 0..255
 
-TraceReset == Step("Reset") /\ ctr' = <<>> /\ seen' = <<>> /\ lastEst' = <<>>
+TraceReset == Step("Reset") /\ ctr' = <<>> /\ seen' = <<>> /\ lastEst' = <<>> /\ snap' = <<>>
 
 TraceNew == /\ Step("New")
             /\ LET e == Trace[l] IN e.p \in 4..16 /\ New(e.c, e.p)
@@ -52,19 +61,39 @@ TraceBuild == /\ Step("Build")
 
 Ascending(nz) == \A k \in 1..(Len(nz) - 1) : nz[k][1] < nz[k + 1][1]
 
+\* the projection e (hdr, len, nz, [full]) is exactly the byte form of a counter of precision p with registers reg
+BytesMatch(e, p, reg) ==
+  /\ e.hdr = HeaderOf(p)
+  /\ e.len = ByteLen(p)
+  /\ Ascending(e.nz)
+  /\ Bind(NZWords(reg), LAMBDA W :
+         Len(e.nz) = Cardinality(W) /\ {e.nz[k] : k \in 1..Len(e.nz)} = W)
+  /\ Has(e, "full") => e.full = EncHLL(p, reg)
+
 TraceBytes == /\ Step("Bytes")
               /\ LET e == Trace[l] IN
                    /\ e.c \in Ids
-                   /\ LET p == ctr[e.c].p  reg == ctr[e.c].reg IN
-                        /\ e.hdr = HeaderOf(p)
-                        /\ e.len = ByteLen(p)
-                        /\ Ascending(e.nz)
-                        /\ Bind(NZWords(reg), LAMBDA W :
-                               Len(e.nz) = Cardinality(W) /\ {e.nz[k] : k \in 1..Len(e.nz)} = W)
-                        /\ Has(e, "full") => /\ e.full = EncHLL(p, reg)
-                                             /\ RoundTripAt(e.c)
-                        /\ SetOnlyAt(e.c)       \* checkpoint: the state is the fold of the SET seen
-              /\ UNCHANGED vars
+                   /\ BytesMatch(e, ctr[e.c].p, ctr[e.c].reg)
+                   /\ Has(e, "full") => RoundTripAt(e.c)
+                   /\ SetOnlyAt(e.c)       \* checkpoint: the state is the fold of the SET seen
+                   /\ IF Has(e, "s") THEN Snap(e.s, e.c) ELSE UNCHANGED vars
+
+\* a byte form obtained earlier, looked at again: still the state of THAT moment
+TraceHeld == /\ Step("Held")
+             /\ LET e == Trace[l] IN
+                  /\ e.s \in DOMAIN snap
+                  /\ BytesMatch(e, snap[e.s].st.p, snap[e.s].st.reg)
+             /\ UNCHANGED vars
+
+TraceBuildHeld == /\ Step("BuildHeld")
+                  /\ LET e == Trace[l] IN BuildSnap(e.d, e.s)
+
+\* the caller writes into bytes it owns; the specification has no state for that: nothing changes
+TraceScribble == /\ Step("Scribble")
+                 /\ LET e == Trace[l] IN
+                      /\ Has(e, "s") => e.s \in DOMAIN snap
+                      /\ Has(e, "d") => e.d \in Ids
+                 /\ UNCHANGED vars
 
 TraceSame == /\ Step("Same")
              /\ LET e == Trace[l] IN
@@ -84,7 +113,7 @@ TraceEstBulk == /\ Step("EstBulk")
 InvAll == TypeOK
 
 TraceNext == (TraceReset \/ TraceNew \/ TraceOffer \/ TraceMerge \/ TraceAddAll \/ TraceBuild
-              \/ TraceBytes \/ TraceSame \/ TraceEst \/ TraceEstBulk) /\ InvAll'
+              \/ TraceBytes \/ TraceHeld \/ TraceBuildHeld \/ TraceScribble \/ TraceSame \/ TraceEst \/ TraceEstBulk) /\ InvAll'
 
 TraceSpec == TraceInit /\ [][TraceNext]_tvars
 
